@@ -228,7 +228,7 @@ def cp2k_case(rng):
             data = {}
             for k in ks:
                 v = [int(rng.integers(1, 500)), 0.25, "xyz", "./p/conf.xyz",
-                     "1 2 3"][int(rng.integers(0, 5))]
+                     "1 2 3", 0, 0.0][int(rng.integers(0, 7))]
                 data[k] = None if rng.random() < 0.04 else v
             val["data"] = data
         else:
